@@ -77,6 +77,7 @@ func init() {
 			jobs = append(jobs, gossipJob{P: P4(3, 2, 0, 1, 1, 1, true), Need: []string{"LeavesSeen", "Unreachables", "Relearned"}})
 		}
 		runGossip(run, "C14", jobs)
+		schedPass(run)
 		return run.Finish()
 	})
 	register("C03", func(args []string) int {
